@@ -588,7 +588,7 @@ impl World {
                         remove_any(&base.join(d))?;
                     }
                     for f in files {
-                        write_file(&base, f)?;
+                        write_file(&base, &super::ops::with_layer_path(f, base.as_os_str().as_bytes()))?;
                     }
                     for k in links {
                         std::os::unix::fs::symlink(OsStr::from_bytes(&k.target), to_path(&base, &k.path))?;
